@@ -450,6 +450,10 @@ class Interp:
                 ev(name, idx, 'got_exc', self.describe(e))
                 if st.get('nocatch'):
                     raise
+                if st.get('hold') is not None:
+                    # the handler goes on working: the frame that caught the exception stays alive and suspended
+                    await (time + num(st['hold']))
+                    ev(name, idx, 'held')
             else:
                 ev(name, idx, 'got', v)
         elif op == 'await_done':
